@@ -45,10 +45,10 @@ class Obj:
 
 
 KEYS = {
-    "plain":   {"a": "a", "b": "b", "i": "i", "t1": "t1", "t2": "t2", "e": "e", "l": "l"},
-    "hostile": {"a": "s['b']", "b": "a']['b", "i": ("t", 1), "t1": 1.5, "t2": "é\"q", "e": "s", "l": -7},
+    "plain":   {"a": "a", "b": "b", "i": "i", "t1": "t1", "t2": "t2", "e": "e", "l": "l", "g": "g"},
+    "hostile": {"a": "s['b']", "b": "a']['b", "i": ("t", 1), "t1": 1.5, "t2": "é\"q", "e": "s", "l": -7, "g": "s['l']"},
     # the two list slots addressed from the end: s['l'][-2], s['l'][-1]  (hash(-1) == hash(-2) in CPython)
-    "negidx":  {"a": "a", "b": "b", "i": "i", "t1": "t1", "t2": "t2", "e": "e", "l": "l", "_li": -2},
+    "negidx":  {"a": "a", "b": "b", "i": "i", "t1": "t1", "t2": "t2", "e": "e", "l": "l", "g": "g", "_li": -2},
 }
 
 
@@ -170,8 +170,11 @@ class World:
         self.e.p = to_py(env["e.p"])
         self.l = [to_py(env["l.0"]), to_py(env["l.1"])]
         self.s = {K[x]: to_py(env[x]) for x in ("a", "b", "i", "t1", "t2")}
+        self.g = [Obj(), Obj()]
+        self.g[0].p, self.g[1].p = to_py(env["g.0.p"]), to_py(env["g.1.p"])
         self.s[K["e"]] = self.e
         self.s[K["l"]] = self.l
+        self.s[K["g"]] = self.g
         self.m = xdeps.Manager()
         self.sref = self.m.ref(self.s, "s")
         self.fref = self.m.ref(Funcs, "f")
@@ -186,6 +189,8 @@ class World:
             return r[K["e"]].p
         if l in ("l.0", "l.1"):
             return r[K["l"]][int(l[-1]) + K.get("_li", 0)]
+        if l in ("g.0.p", "g.1.p"):
+            return r[K["g"]][int(l[2]) + K.get("_li", 0)].p
         if l == "s":
             return r
         return r[K[l]]
@@ -195,6 +200,8 @@ class World:
             return self.e.p
         if l in ("l.0", "l.1"):
             return self.l[int(l[-1])]
+        if l in ("g.0.p", "g.1.p"):
+            return self.g[int(l[2])].p
         return self.s[self.K[l]]
 
     def raw_set(self, l, v):
@@ -202,6 +209,8 @@ class World:
             self.e.p = v
         elif l in ("l.0", "l.1"):
             self.l[int(l[-1])] = v
+        elif l in ("g.0.p", "g.1.p"):
+            self.g[int(l[2])].p = v
         else:
             self.s[self.K[l]] = v
 
@@ -224,7 +233,7 @@ class World:
         if not steps:
             return "s"
         try:
-            inv = {("item", K[x]): x for x in ("a", "b", "i", "t1", "t2", "e", "l")}
+            inv = {("item", K[x]): x for x in ("a", "b", "i", "t1", "t2", "e", "l", "g")}
             first = inv.get(steps[0])
         except TypeError:
             return None
@@ -240,6 +249,14 @@ class World:
                 return f"l.{steps[1][1] - off}"
             if first == "l" and steps[1][0] == "item" and hasattr(steps[1][1], "_get_value"):
                 return "l.[*]"
+            if first == "g" and steps[1][0] == "item" and hasattr(steps[1][1], "_get_value"):
+                return "g.[*]"
+        if len(steps) == 3 and first == "g" and steps[1][0] == "item" and steps[2] == ("attr", "p"):
+            if hasattr(steps[1][1], "_get_value"):
+                return "g.[*].p"
+            off = K.get("_li", 0)
+            if steps[1][1] in (0 + off, 1 + off) and not isinstance(steps[1][1], bool):
+                return f"g.{steps[1][1] - off}.p"
         return None
 
     # -- AST -> real objects ---------------------------------------------------------------------------------
@@ -259,6 +276,8 @@ class World:
             return xr.LiteralExpr(to_py(e["v"]))
         if k == "dyn":
             return self.ref(e["o"], root)[self.operand(e["key"], root)]
+        if k == "dyna":
+            return self.ref("g", root)[self.operand(e["key"], root)].p
         if k == "bin":
             a, b = self.operand(e["a"], root), self.operand(e["b"], root)
             if e["op"] == "==":
@@ -293,7 +312,9 @@ class World:
             l = self.loc_of(e)
             if l == "l.[*]":
                 return {"k": "dyn", "o": "l", "key": self.abs_operand(e._key)}
-            if l in ("s", "l", "e"):
+            if l == "g.[*].p":
+                return {"k": "dyna", "key": self.abs_operand(e._owner._key)}
+            if l in ("s", "l", "e", "g"):
                 return {"k": "cont", "c": l}
             if l is None or l == "f:lin":
                 return {"k": "?", "repr": repr(e)}
@@ -329,6 +350,9 @@ class World:
         if k == "dyn":
             idx = self.pyeval(e["key"], get)
             return [get("l.0"), get("l.1")][idx]
+        if k == "dyna":
+            idx = self.pyeval(e["key"], get)
+            return [get("g.0.p"), get("g.1.p")][idx]
         if k == "bin":
             a = self.pyeval(e["a"], get)
             b = self.pyeval(e["b"], get)
@@ -396,6 +420,8 @@ def apply(w, lab):
                 raise KeyError(form)
         elif a == "Index":
             w.cur = w.sref[w.K["l"]][w.cur]
+        elif a == "IndexAttr":
+            w.cur = w.sref[w.K["g"]][w.cur].p
         elif a == "Assign":
             cur, w.cur = w.cur, None
             w.sref[w.K[lab["t"]]] = cur
@@ -423,6 +449,8 @@ def apply(w, lab):
                 w.sref[w.K["e"]].p = v
             elif l in ("l.0", "l.1"):
                 w.sref[w.K["l"]][int(l[-1]) + w.K.get("_li", 0)] = v
+            elif l in ("g.0.p", "g.1.p"):
+                w.sref[w.K["g"]][int(l[2]) + w.K.get("_li", 0)].p = v
             else:
                 w.sref[w.K[l]] = v
         else:
@@ -448,15 +476,15 @@ def mirror_step(w, lab, spec_defs_before):
 
 
 OPAQUE_ENVS = {
-    "complex": {"a": complex(1, 2), "b": complex(0, -1), "i": 1, "e.p": 2.5, "l.0": complex(3, 0), "l.1": 0},
-    "npscalar": {"a": np.float64(2.5), "b": np.int64(-3), "i": np.int64(0), "e.p": np.float32(0.5), "l.0": np.int64(7), "l.1": np.float64(0.0)},
-    "nparray": {"a": np.array([1.0, -2.0, 0.0]), "b": np.array([2, 0, -1]), "i": 1, "e.p": 2, "l.0": np.array([0.5, 4.0, 2.0]), "l.1": np.array([1, 2, 3])},
+    "complex": {"a": complex(1, 2), "b": complex(0, -1), "i": 1, "e.p": 2.5, "l.0": complex(3, 0), "l.1": 0, "g.0.p": complex(0, 1), "g.1.p": 2},
+    "npscalar": {"a": np.float64(2.5), "b": np.int64(-3), "i": np.int64(0), "e.p": np.float32(0.5), "l.0": np.int64(7), "l.1": np.float64(0.0), "g.0.p": np.float64(1.5), "g.1.p": np.int64(4)},
+    "nparray": {"a": np.array([1.0, -2.0, 0.0]), "b": np.array([2, 0, -1]), "i": 1, "e.p": 2, "l.0": np.array([0.5, 4.0, 2.0]), "l.1": np.array([1, 2, 3]), "g.0.p": np.array([2.0, 0.0, 1.0]), "g.1.p": np.array([3, 1, 2])},
 }
 
 
 def has_ref(e):
     if isinstance(e, dict):
-        return e.get("k") in ("ref", "cont", "dyn", "call") or any(has_ref(v) for v in e.values())
+        return e.get("k") in ("ref", "cont", "dyn", "dyna", "call") or any(has_ref(v) for v in e.values())
     if isinstance(e, list):
         return any(has_ref(v) for v in e)
     return False
@@ -689,7 +717,7 @@ def worker(job, shard, nshards):
             if w.cur is None:
                 fail(["C04"], "no expression was built", {})
             else:
-                if st["node"][0]["k"] in ("bin", "un", "bi", "call", "dyn"):
+                if st["node"][0]["k"] in ("bin", "un", "bi", "call", "dyn", "dyna"):
                     stats["nontrivial"] += 1
                 impl = check_node(w, st, states[src]["node"][0], fail, stats, do_opaque)
                 if len(samples) < 2 and len(steps) >= 2 and not nfail[0]:
